@@ -2848,8 +2848,8 @@ GRwriteimage(int32 riid, int32 start[2], int32 in_stride[2], int32 count[2], voi
                         } /* end if */
                         tmp_data = (void *)((char *)tmp_data + pixel_disk_size);
                     } /* end for */
-                    /* Fill in the y-dim stride lines */
-                    if (fill_ydim == TRUE)
+                    /* Fill in the y-dim stride lines (only between the rows of the block) */
+                    if (fill_ydim == TRUE && i < (count[YDIM] - 1))
                         for (k = 1; k < stride[YDIM]; k++) {
                             if (Hwrite(ri_ptr->img_aid, fill_line_size, fill_line) == FAIL)
                                 HGOTO_ERROR(DFE_WRITEERROR, FAIL);
@@ -2870,6 +2870,13 @@ GRwriteimage(int32 riid, int32 start[2], int32 in_stride[2], int32 count[2], voi
                         HGOTO_ERROR(DFE_WRITEERROR, FAIL);
                 } /* end if */
 
+                /* write out lines "above" the block */
+                if ((start[YDIM] + ((count[YDIM] - 1) * stride[YDIM]) + 1) < ri_ptr->img_dim.ydim) {
+                    for (i = start[YDIM] + ((count[YDIM] - 1) * stride[YDIM]) + 1; i < ri_ptr->img_dim.ydim;
+                         i++)
+                        if (Hwrite(ri_ptr->img_aid, fill_line_size, fill_line) == FAIL)
+                            HGOTO_ERROR(DFE_WRITEERROR, FAIL);
+                } /* end if */
             }                     /* end if */
             else {                /* don't worry about fill values */
                 int32 stride_add; /* amount to add for stride amount */
